@@ -332,7 +332,8 @@ def sem (start : Bytes) (v : Visit Attr) (p : Prim) (s : ES) : Bool × ES :=
   | .true_ => (true, s)
   | .false_ => (false, s)
   | .opt => (true, s)
-  | .name l => (fileName start v == l, s)
+  -- `NameMatcher`: the pattern (here a literal) against the name decoded lossily
+  | .name l => (FuModel.Utf8.lossy (fileName start v) == l, s)
   | .typeIs c => (fileType v == c, s)
   | .xtype c => ((match xtypeOf v with | some t => t == c | none => c == 'l'), s)
   | .perm k m => ((match metaOf v with | some (_, r) => permMatch k m r.perm | none => false), s)
